@@ -550,6 +550,8 @@ def main():
             outcome = "detected"
         elif isinstance(r["rc"], int) and r["rc"] < 0:
             outcome = f"signal{-r['rc']}"
+        elif s["fork"] and isinstance(r["rc"], int) and r["rc"] > 128 and not r["err"].strip():
+            outcome = f"fork-child-signal{r['rc'] - 128}"
         else:
             outcome = "other-error"
         bump(f"outcome:{cls}:{outcome}")
